@@ -34,3 +34,82 @@ package storagesc
 //@   prop C23
 //@   requires tx != nil
 //@   at-call ShutDown assert[caller-owner] $arg1 == tx.ClientID && $arg2 == conf.OwnerId
+
+// ---------------------------------------------------------------- free-storage markers (C24)
+//   markerSigned(pk, sig): sig is a valid signature under public key pk of some message (the message
+//   is the marker text built with fmt.Sprintf, which is not modelled: WHAT is signed is not decided)
+//@ spec markerSigned(pk string, sig string) bool = exists m string :: sig_valid(pk, sig, m)
+
+// The marker's signature is checked by a scheme carrying exactly the given public key, on exactly the
+// marker's signature field; only a (true, nil) verdict of that scheme counts.
+//@ func verifyFreeAllocationRequestNew
+//@   prop C24
+//@   requires balances != nil
+//@   ensures[verdict-is-the-schemes] result0 && result1 == nil ==> markerSigned(publicKey, frm.Signature)
+//@   at-call Verify assert[key-is-the-given-one] $pk[obj(signatureScheme)] == publicKey && $arg1 == frm.Signature
+//@   modifies $pk
+
+// A marker validates against its assigner only with a valid signature, within the individual limit,
+// with the assigner's total staying within its total limit, and only if its nonce was never redeemed.
+//@ func (*freeStorageAssigner).validate
+//@   prop C24
+//@   requires fsa != nil && balances != nil
+//@   ensures[signature-valid] result == nil ==> markerSigned(fsa.PublicKey, marker.Signature)
+//@   ensures[within-individual-limit] result == nil ==> value <= fsa.IndividualLimit
+//@   ensures[within-total-limit] result == nil ==> fsa.CurrentRedeemed + value <= fsa.TotalLimit
+//@   ensures[nonce-not-redeemed] result == nil ==> forall i in 0..len(fsa.RedeemedNonces) :: fsa.RedeemedNonces[i] != marker.Nonce
+//@   modifies $pk
+//@   loop 1 header "for _, nonce := range fsa.RedeemedNonces"
+//@   loop 1 invariant forall k in 0..$idx+1 :: fsa.RedeemedNonces[k] != marker.Nonce
+
+// Trie reads / decoders used by freeAllocationRequest before anything is granted: trusted frames.
+//@ func (*freeStorageAllocationInput).decode
+//@   trusted
+//@   modifies frm.$all
+//@ func (*freeStorageMarker).decode
+//@   trusted
+//@   modifies frm.$all
+//@ func (*StorageSmartContract).getConfig
+//@   trusted
+//@   ensures result1 == nil ==> result0 != nil
+//@   modifies nothing
+// ASSUMPTION (decoder + history): the record stored under an assigner's key carries that assigner's
+// id (established by addFreeStorageAssigner below, which creates records with ClientId = the name it
+// saves them under, and kept by freeAllocationRequest, which never changes ClientId).
+//@ func (*StorageSmartContract).getFreeStorageAssigner
+//@   trusted
+//@   ensures result1 == nil ==> result0 != nil && fresh(result0) && result0.ClientId == clientID
+//@   ensures result1 != nil ==> result0 == nil
+//@   modifies nothing
+//@ func (*newFreeStorageAssignerInfo).decode
+//@   trusted
+//@   modifies frm.$all
+
+// Assigners are registered (and their limits changed) only by the contract owner, with limits capped
+// by the configured maxima, under the key of the name given in the request.
+//@ func (*StorageSmartContract).addFreeStorageAssigner
+//@   prop C24
+//@   requires ssc != nil && t != nil && balances != nil
+//@   at-call save assert[owner-only] conf.OwnerId == t.ClientID
+//@   at-call save assert[limits-capped] assigner.TotalLimit <= conf.MaxTotalFreeAllocation && assigner.IndividualLimit <= conf.MaxIndividualFreeAllocation
+//@   at-call save assert[saved-under-the-requested-name] assigner.ClientId == assignerInfo.Name
+//@ func (*newAllocationRequest).encode
+//@   trusted
+//@   modifies nothing
+
+// freeAllocationRequest creates the allocation (and later saves the assigner) only for the marker's
+// named recipient, after the marker validated, with the grant within the individual limit and the
+// assigner's new total within its total limit; the nonce it records as redeemed is the marker's.
+//@ func (*StorageSmartContract).freeAllocationRequest
+//@   prop C24
+//@   requires ssc != nil && txn != nil && balances != nil
+//@   opaque newAllocationRequestInternal, readPoolLockInternal, Decode
+//@   at-call newAllocationRequestInternal assert[only-the-recipient] txn.ClientID == marker.Recipient && request.Owner == marker.Recipient
+//@   at-call newAllocationRequestInternal assert[signed-by-the-assigner] markerSigned(assigner.PublicKey, marker.Signature) && assigner.ClientId == marker.Assigner
+//@   at-call newAllocationRequestInternal assert[within-limits] free <= assigner.IndividualLimit && assigner.CurrentRedeemed <= assigner.TotalLimit
+//@   at-call newAllocationRequestInternal assert[nonce-not-redeemed] forall i in 0..len(assigner.RedeemedNonces) :: assigner.RedeemedNonces[i] != marker.Nonce
+//@   at-call newAllocationRequestInternal assert[pools-split-the-grant] writePoolTokens + readPoolTokens == free
+//@   at-call save assert[nonce-recorded] len(assigner.RedeemedNonces) >= 1 && assigner.RedeemedNonces[len(assigner.RedeemedNonces)-1] == marker.Nonce
+//@   at-call save assert[total-within-limit-when-saved] assigner.CurrentRedeemed <= assigner.TotalLimit
+//@   at-call save assert[saved-under-the-markers-assigner] assigner.ClientId == marker.Assigner
+//@   at-call readPoolLockInternal assert[read-pool-gets-its-part] txn.Value == readPoolTokens && $arg3 == marker.Recipient
